@@ -126,7 +126,7 @@ def classify(pid, acc):
     for sig in acc.viol_count:
         hit = None
         for f in findings:
-            if f['match'] and fnmatch.fnmatchcase(sig, f['match']):
+            if f['match'] and any(fnmatch.fnmatchcase(sig, pat) for pat in f['match'].split('|')):
                 hit = f
                 break
         if hit is None:
